@@ -15,7 +15,10 @@ import (
 	"pcverif/fakecmd"
 )
 
-const runTimeout = 10 * time.Second
+const runTimeout = 5 * time.Second
+
+// maxHangs: the run phase is cut short after this many hanging Run() calls.
+const maxHangs = 3
 
 // yamlOf renders the configuration file of a case.  Written by hand so that nothing of the
 // implementation's own (un)marshalling is used to produce the input.
